@@ -1,4 +1,4 @@
 From Coq Require Import Extraction ExtrOcamlBasic.
 From OV Require Import Common.Base C14.Model.
 Extraction Language OCaml.
-Extraction "C14_model.ml" parse_vlan_range parse_cvlan build lookup ref_lookup ref_lookup_in claims validate validate_strict cm_init cm_commit cm_lookup applied l2gw_policy l2gw_policy_rescan l2gw_handoff s_cuts c_cuts rep.
+Extraction "C14_model.ml" parse_vlan_range parse_cvlan build lookup ref_lookup ref_lookup_in claims validate validate_strict cm_init cm_commit cm_lookup applied l2gw_policy l2gw_policy_rescan rescan_policy rescan_index l2gw_handoff s_cuts c_cuts rep.
